@@ -5,7 +5,6 @@ import (
 	"go/ast"
 	"go/constant"
 	"go/types"
-	"strings"
 
 	"golang.org/x/tools/go/callgraph"
 	"golang.org/x/tools/go/packages"
@@ -140,7 +139,7 @@ func (p *Prog) globalLeaves(g *ssa.Global) (map[string]constant.Value, bool) {
 	}
 	for _, fn := range p.RepoFuncs() {
 		for _, gs := range globalStores(fn) {
-			if gs.G == g && !strings.HasPrefix(fn.Name(), "init") {
+			if gs.G == g && !p.startupOnly(fn) {
 				return nil, false
 			}
 		}
